@@ -37,6 +37,8 @@ type Policy struct {
 	// recorded interest re-reports a ready descriptor) after each of them.
 	ET    bool
 	Edges int64
+	// Budget (profile "budget"): bytes the kernel still has room for.
+	Budget int64
 
 	Calls      int64
 	Short      int64
@@ -94,8 +96,9 @@ func policyOf(fd int) *Policy {
 var ShimReached int64
 
 type verdict struct {
-	cap   int // >0: limit the length handed to the real syscall
-	errno syscall.Errno
+	cap    int // >0: limit the length handed to the real syscall
+	errno  syscall.Errno
+	noEdge bool // budget profile: the harness signals room explicitly (Kick)
 }
 
 func (p *Policy) decide(n int) verdict {
@@ -114,6 +117,17 @@ func (p *Policy) decide(n int) verdict {
 	defer p.mu.Unlock()
 	switch p.Profile {
 	case "pass":
+		return verdict{}
+	case "budget":
+		// the kernel has room for exactly Budget more bytes
+		b := atomic.LoadInt64(&p.Budget)
+		if b <= 0 {
+			atomic.AddInt64(&p.EAGAIN, 1)
+			return verdict{errno: syscall.EAGAIN, noEdge: true}
+		}
+		if int64(n) > b {
+			return verdict{cap: int(b), noEdge: true}
+		}
 		return verdict{}
 	case "eintr-first":
 		// the very first transfer is interrupted before any byte moves; the
@@ -183,9 +197,17 @@ func (p *Policy) edge(fd int) {
 	}
 }
 
+// Kick signals "room became available" after the harness raised Budget: in
+// ET mode that is the writability edge; LT and ONESHOT need nothing (the
+// socket is really writable, an armed interest fires by itself).
+func (p *Policy) Kick(fd int) { p.edge(fd) }
+
 func (p *Policy) account(n int, err error) {
 	if n > 0 {
 		atomic.AddInt64(&p.KernelIn, int64(n))
+		if p.Profile == "budget" {
+			atomic.AddInt64(&p.Budget, -int64(n))
+		}
 	}
 	if err == syscall.EAGAIN {
 		atomic.AddInt64(&p.RealEAGAIN, 1)
@@ -202,7 +224,7 @@ func installShim() {
 			}
 			v := p.decide(len(b))
 			if v.errno != 0 {
-				if v.errno == syscall.EAGAIN {
+				if v.errno == syscall.EAGAIN && !v.noEdge {
 					p.edge(fd)
 				}
 				return -1, v.errno, true
@@ -215,7 +237,7 @@ func installShim() {
 			}
 			n, err := syscall.Write(fd, b)
 			p.account(n, err)
-			if short {
+			if short && !v.noEdge {
 				p.edge(fd)
 			}
 			return n, err, true
@@ -228,7 +250,7 @@ func installShim() {
 			}
 			v := p.decide(count)
 			if v.errno != 0 {
-				if v.errno == syscall.EAGAIN {
+				if v.errno == syscall.EAGAIN && !v.noEdge {
 					p.edge(dst)
 				}
 				return 0, v.errno, true
@@ -241,7 +263,7 @@ func installShim() {
 			}
 			n, err := syscall.Sendfile(dst, src, off, count)
 			p.account(n, err)
-			if short {
+			if short && !v.noEdge {
 				p.edge(dst)
 			}
 			return n, err, true
@@ -258,7 +280,7 @@ func installShim() {
 			}
 			v := p.decide(total)
 			if v.errno != 0 {
-				if v.errno == syscall.EAGAIN {
+				if v.errno == syscall.EAGAIN && !v.noEdge {
 					p.edge(fd)
 				}
 				return 0, v.errno, true
@@ -289,7 +311,7 @@ func installShim() {
 				return 0, e, true
 			}
 			p.account(int(r), nil)
-			if short {
+			if short && !v.noEdge {
 				p.edge(fd)
 			}
 			return int(r), 0, true
